@@ -60,6 +60,17 @@ def run(chk, tier):
         pushes = [x for x in H.walk(h["body"]) if H.kind(x) == "if" and any(H.kind(y) == "mcall" and y[3] == "push" and H.path_of(y[5][0]) == "pad" for y in H.walk(x[3]))]
         good = len(pushes) == 1 and "Rem" in H.show(pushes[0][2], 6) and H.show(pushes[0][2], 6).rstrip(")").endswith("1")
         chk.expect(good, "padding-byte", fn, "pad-iff-odd", "if len % 2 == 1 { push(pad) }", [H.show(p[2], 6) for p in pushes])
+        # one buffer: the buffer whose length is tested for oddness, the one padded, the one measured for the header
+        # and the one written must be the same place (otherwise declared length and written bytes can differ)
+        from .acc import place_text
+        written = [place_text(H.call_args(x)[1]) for c, x in H.calls(h["body"]) if c and c.endswith("io::Write::write_all")]
+        padded = [place_text(y[4]) for p_ in pushes for y in H.walk(p_[3]) if H.kind(y) == "mcall" and y[3] == "push" and H.path_of(y[5][0]) == "pad"]
+        tested = [place_text(y[4]) for p_ in pushes for y in H.walk(p_[2]) if H.kind(y) == "mcall" and y[3] == "len"]
+        hdr_calls = [x for x in H.walk(h["body"]) if H.kind(x) == "mcall" and x[3] == "encode_element_header"]
+        measured = [place_text(y[4]) for x in hdr_calls for y in H.walk(x) if H.kind(y) == "mcall" and y[3] == "len"]
+        same = len(written) == 1 and padded == written and tested == written and measured == written
+        chk.expect(same, "padding-byte", fn, "one-buffer", "tested, padded, measured (header length) and written buffer are the same place",
+                   {"tested": tested, "padded": padded, "measured": measured, "written": written}, loc=C.fn_loc(h))
     # binary path of encode_primitive_element
     h = fx.hirfn(f"{SE}::<W, E>::encode_primitive_element")
     pms = [x for x in H.walk(h["body"]) if H.kind(x) == "slet" and H.pat_bindings(x[2]) == ["padding"]]
